@@ -260,6 +260,13 @@ Definition sml_step (fixed eigen : bool) (e : exp) (m : sml) (o : op) : sml :=
   | _ => m
   end.
 
+(* whole runs with a SparseMaximumLikelihoodModel (same shape as [run]) *)
+Definition sstep (fixed eigen : bool) (st : exp * sml) (o : op) : exp * sml :=
+  let e' := exp_step (fst st) o in (e', sml_step fixed eigen e' (snd st) o).
+Definition srun (fixed eigen : bool) (S A : nat) (pre : list op) (toSync : bool) (post : list op) : exp * sml :=
+  let e0 := exp_after S A pre in
+  fold_left (sstep fixed eigen) post (e0, sml_ctor fixed eigen e0 toSync).
+
 (* ------------------------------------------------------------------ Bandit::Experience *)
 (* src: src/Bandit/Experience.cpp:record
      ++timesteps_; ++get<visits>(q_[a]); delta = rew - q_[a].avg; avg += delta / visits;
